@@ -64,6 +64,17 @@ impl IntoResponse for ApiError {
     }
 }
 
+/// a second type that claims the component name `Item` with another shape: registering both must be refused, not silently merged
+pub mod other {
+    use super::*;
+    #[derive(Serialize, Deserialize, Schema, Clone)]
+    #[openapi(component)]
+    pub struct Item {
+        pub sku: String,
+        pub qty: u32,
+    }
+}
+
 fn item() -> Item {
     Item { id: 1, name: "x".into(), tags: vec![], active: true, price: None }
 }
@@ -80,7 +91,7 @@ pub struct Sig {
     pub sample_body: &'static str,
     pub components: &'static [&'static str],
 }
-pub const SIGS: [Sig; 9] = [
+pub const SIGS: [Sig; 10] = [
     Sig { id: 0, params: &[], query: &[], body: None, codes: &[200], sample_body: "", components: &[] },
     Sig { id: 1, params: &["integer"], query: &[], body: None, codes: &[200], sample_body: "", components: &[] },
     Sig { id: 2, params: &["string", "integer"], query: &[], body: None, codes: &[200], sample_body: "", components: &["Item"] },
@@ -90,6 +101,7 @@ pub const SIGS: [Sig; 9] = [
     Sig { id: 6, params: &[], query: &[], body: Some("application/x-www-form-urlencoded"), codes: &[204], sample_body: "user=u&pass=p", components: &[] },
     Sig { id: 7, params: &["string"], query: &[("q", true, "string"), ("page", false, "integer")], body: None, codes: &[200], sample_body: "", components: &["Item"] },
     Sig { id: 8, params: &[], query: &[], body: None, codes: &[204], sample_body: "", components: &[] },
+    Sig { id: 9, params: &[], query: &[], body: None, codes: &[200], sample_body: "", components: &["Item"] },
 ];
 
 macro_rules! sig_handler {
@@ -103,6 +115,7 @@ macro_rules! sig_handler {
             4 => $hs.$m(move |JSON(b): JSON<NewItem>| { trace::push(Ev::Handler(hid, vec![b.name.clone()])); async { status::Created(JSON(item())) } }),
             5 => $hs.$m(move |id: u64, JSON(b): JSON<NewItem>| { trace::push(Ev::Handler(hid, vec![id.to_string(), b.name.clone()])); async { Result::<JSON<Item>, ApiError>::Ok(JSON(item())) } }),
             6 => $hs.$m(move |URLEncoded(f): URLEncoded<LoginForm>| { trace::push(Ev::Handler(hid, vec![f.user.clone(), f.pass.clone()])); async { status::NoContent } }),
+            9 => $hs.$m(move || { trace::push(Ev::Handler(hid, vec![])); async { JSON(other::Item { sku: "s".into(), qty: 1 }) } }),
             7 => $hs.$m(move |name: String, Query(q): Query<Search>| { trace::push(Ev::Handler(hid, vec![name, q.q.clone()])); async { JSON(vec![item()]) } }),
             _ => $hs.$m(move || { trace::push(Ev::Handler(hid, vec![])); async { status::NoContent } }),
         }
@@ -175,7 +188,8 @@ fn gen_app(rng: &mut Rng, next_app: &mut u32, next_h: &mut u32, depth: usize, pr
     let names = ["items", "users", "search", "login", "a", "b", "health"];
     let pnames = ["id", "name", "key"];
     for _ in 0..rng.range(1, 4) {
-        let sig = rng.below(SIGS.len()) as u32;
+        // signature 9 (the contradicting `Item`) is rare: most applications must stay describable
+        let sig = if rng.chance(1, 40) { 9 } else { rng.below(9) as u32 };
         let need = SIGS[sig as usize].params.len();
         if need < prefix_params { continue }
         let own = need - prefix_params + if undeclared && rng.chance(1, 3) && need + 1 <= 2 { 1 } else { 0 };
@@ -257,11 +271,25 @@ pub fn run(args: &Args, rep: &mut Report) {
             for s in &sigset { rep.count(&format!("signature_used:{s}")) }
             rep.distinct(&format!("{:?}:{}:{}", sigset, na, ops.iter().map(|o| o["auth"].as_array().unwrap().len().to_string()).collect::<Vec<_>>().join("")));
             let doc = catch(|| build(&app).__openapi_document_bytes__(openapi::OpenAPI { title: "t", version: "1", servers: &[] }));
+            // two types claiming the component name `Item` with different shapes: the only acceptable outcome is a loud refusal
+            let contradicting = sigset.contains(&9) && sigset.iter().any(|s| [2u64, 3, 4, 5, 7].contains(s));
+            if contradicting {
+                rep.count("apps_with_contradicting_components");
+                match &doc {
+                    Err(p) if p.contains("contradict") => rep.count("contradicting_components_refused"),
+                    Err(p) => rep.violation(&format!("C15/generation-panicked@{}", crate::report::panic_site(p)), &format!("document generation panicked: {p}"), json!({"case_index": case, "operations": ops})),
+                    Ok(_) => rep.violation("C15/contradicting-components-merged", "two different schemas registered under the component name `Item` and a document was produced all the same", json!({"case_index": case, "operations": ops})),
+                }
+                rep.end(case);
+                case += args.nshards;
+                continue;
+            }
             let doc = match doc {
                 Ok(b) => b,
                 Err(p) => {
                     rep.violation(&format!("C15/generation-panicked@{}", crate::report::panic_site(&p)), &format!("document generation panicked: {p}"), json!({"case_index": case, "operations": ops}));
                     rep.end(case);
+                    case += args.nshards;
                     continue;
                 }
             };
@@ -270,6 +298,7 @@ pub fn run(args: &Args, rep: &mut Report) {
                 Err(e) => {
                     rep.violation("C15/not-json", &format!("document is not JSON: {e}"), json!({"case_index": case}));
                     rep.end(case);
+                    case += args.nshards;
                     continue;
                 }
             };
